@@ -20,7 +20,8 @@ DIGEST = ['*digest::*::update', '*Digest*::update', '*::Update>::update', '*::ch
 
 
 def has(og, pat):
-    return any(glob_match(pat, o) for o in og)
+    # a field path under the named origin also counts (getters spliced by the inliner make origins more precise)
+    return any(glob_match(pat, o) or (pat[-1] != '*' and glob_match(pat + '.*', o)) for o in og)
 
 
 def run(ctx):
